@@ -88,6 +88,10 @@ def main : IO Unit := do
     let pss : List (Array Int) := [#[], #[0, 0], #[1, 0, 0, 1, 3, 2, 2], #[0, 3, 3, 9, 5, 0]]
     for (k, ps) in (List.range 4).zip pss do
       IO.println (line s!"netScript {n} {k} {showInts ps}" ((netScript F n (k : Int) ps).map toString))
+  for a in ([#[], #[5, 1, 9], #[2, 2, -4, 7]] : List (Array Int)) do
+    for b in ([#[], #[9, 5, 1], #[3, -1, 8]] : List (Array Int)) do
+      for lo in [(-1 : Int), 0, 1, 3, 4] do
+        IO.println (line s!"rackScript {showInts a} {showInts b} {lo}" ((rackScript F a b lo).map toString))
 
 #eval main
 end Selftest
